@@ -67,6 +67,16 @@ CLAIMED['C09'] = dict(
     note='Regex match stubbed. Known finding KF-C09-TOD (reference with a time of day on the very day named) is excluded as a region and searched separately. ' + NOTE_COMMON,
     design='§5/C09')
 
+CLAIMED['C17'] = dict(
+    technique='solver-driven small-scope exploration (symx + z3) of the real routing/caching code; one inductive cache step from an arbitrary valid cache state',
+    text=SX + 'Culture codes are assembled from symbolic indices (15 languages x regions x letter case, None, empty); z3 enumerates the index space and the '
+         'real map_to_nearest_language / Recognizer.get_model / ModelFactory code runs on each with the real registration tables of all five recognisers '
+         '(constructors replaced by tagged sentinels). The cache obligation starts from an arbitrary cache satisfying the invariant and makes one request, '
+         'which covers request histories of any length and order. Option-range validation is checked for options -3..40.',
+    note='Strings cannot be symbolic in this engine, so the culture-code space is the stated finite grammar, explored exhaustively through the solver '
+         '(this obligation is closer to exhaustive small-scope enumeration than to symbolic reasoning; stated as such). ' + NOTE_COMMON,
+    design='§5/C17')
+
 NOT_APPLICABLE = {
     'C18': 'ground equality of ~50 concrete generated files against concrete YAML: no quantified variable for a solver to range over; '
            'deciding it is executing the generator (whose dependency ruamel.yaml is absent from every usable interpreter)',
